@@ -279,7 +279,7 @@ static IAUTH_RULE_FUNC(iauth_class_rule_check)
         iauth_trust_username(req, req->cli_username + ofs);
     }
 
-    strlcpy(req->class, rule->class ? rule->class : rule->name, CLASSLEN);
+    strlcpy(req->class, rule->class ? rule->class : rule->name, sizeof(req->class));
     ++rule->assigned;
     return 1;
 }
